@@ -42,8 +42,13 @@ def one(name):
         meta["caught_by"] = [c for c, v in res.items() if v["exit"] == 1]
         if rc1 == 0 or rc0 != 0:
             meta["status_on_current_tree"] = "obsolete: demo exits %d on the clean and %d on the changed tree (a later repair of /repo removed what it needs)" % (rc0, rc1)
+        elif meta["caught_by"]:
+            meta["status_on_current_tree"] = "caught"
+        elif meta.get("judged_out_of_scope"):
+            # the change does not falsify the property as stated (see DESIGN.md section 9): nothing claims to catch it
+            meta["status_on_current_tree"] = "out_of_scope: " + meta["judged_out_of_scope"]
         else:
-            meta["status_on_current_tree"] = "caught" if meta["caught_by"] else "MISSED"
+            meta["status_on_current_tree"] = "MISSED"
         meta["revalidated_at"] = time.strftime("%Y-%m-%dT%H:%M:%SZ", time.gmtime())
         meta["revalidated_repo_head"] = subprocess.check_output(["git", "-C", "/repo", "log", "--format=%h", "-1"], text=True).strip()
         return name, meta
